@@ -155,7 +155,7 @@ Definition scroll_one_tokens (slrm : bool) (down rightw : Z)
   (acc : root * term * bool * bool) (rc : rect) : list token :=
   let '(st, tm, _, _) := acc in
   if (Z.abs down >=? lines rc) || (Z.abs rightw >=? cols rc) then []
-  else match shift_damage (r_damage st) rc down rightw with
+  else match shift_damage (r_fuel st) (r_damage st) rc down rightw with
        | None => []
        | Some _ => snd (xt_scrollrect slrm (t_cols tm) (xr rc) down rightw)
        end.
@@ -182,13 +182,13 @@ Definition win_scroll_tokens (slrm : bool) (cfg : defects) (st : root) (tm : ter
       match (match orig with Some o => r_intersect self o | None => r_intersect self self end) with
       | None => []
       | Some rc =>
-        match rs_add rsfuel [] rc with
+        match rs_add (r_fuel st) [] rc with
         | None => []
         | Some v0 =>
-          match (if mask_children then rs_sub_vis (Some v0) (t_kids w) else Some v0) with
+          match (if mask_children then rs_sub_vis (r_fuel st) (Some v0) (t_kids w) else Some v0) with
           | None => []
           | Some v1 =>
-            match scroll_region cfg chain v1 0 0 with
+            match scroll_region cfg (r_fuel st) chain v1 0 0 with
             | SFault => []
             | SInvisible => []
             | SRegion v abs_t abs_l =>
@@ -215,7 +215,7 @@ Proof.
   intros Hon (HVR & Hok & Horc & Hlr & HL & HC). unfold scroll_one, scroll_one_tokens, acc_tm.
   destruct ((Z.abs d >=? lines rc) || (Z.abs r >=? cols rc)) eqn:Ebig.
   - cbn [fst snd vt_run fold_left]. unfold XInv. tauto.
-  - destruct (shift_damage (r_damage s) rc d r) as [dmg|].
+  - destruct (shift_damage (r_fuel s) (r_damage s) rc d r) as [dmg|].
     2:{ cbn [fst snd vt_run fold_left]. unfold XInv. tauto. }
     set (tm1 := if dp then tm else term_set_cvis tm false).
     assert (HVR1 : VR tm1 v) by (unfold tm1; destruct dp; exact HVR).
@@ -280,14 +280,14 @@ Proof.
   { destruct orig as [o|]; apply intersect_some in Erc; destruct Erc as [Hn Hi]; (split; [exact Hn|]);
       intros p; rewrite Hi; cbn [ex_has]; tauto. }
   destruct Hrc as [Hrcne Hrcin].
-  destruct (rs_add rsfuel [] rc) as [v0|] eqn:Ev0; [|left; eexists; split; reflexivity].
+  destruct (rs_add (r_fuel st) [] rc) as [v0|] eqn:Ev0; [|left; eexists; split; reflexivity].
   destruct (rs_add_inv _ _ _ _ inv_nil Hrcne Ev0) as [Hinv0 Hcov0].
-  destruct (if mask then rs_sub_vis (Some v0) (t_kids w) else Some v0) as [v1|] eqn:Ev1;
+  destruct (if mask then rs_sub_vis (r_fuel st) (Some v0) (t_kids w) else Some v0) as [v1|] eqn:Ev1;
     [|left; eexists; split; reflexivity].
   assert (Hv1 : Inv v1 /\ forall p, covered v1 p <->
                   cell_in rc p /\ (mask = true -> vis_cover (t_kids w) p = false)).
   { destruct mask.
-    - destruct (rs_sub_vis_exact (t_kids w) v0 v1 Hinv0) as [Hi Hcv]; [|exact Ev1|].
+    - destruct (rs_sub_vis_exact (rfuel:=(r_fuel st)) (t_kids w) v0 v1 Hinv0) as [Hi Hcv]; [|exact Ev1|].
       + apply Forall_forall. intros c Hc0. apply Hvn.
         eapply subtree_trans; [apply subtree_kid; exact Hc0|exact Hsw].
       + split; [exact Hi|]. intros p. rewrite Hcv, Hcov0, covered_nil, <- vis_cover_false_iff. tauto.
@@ -301,9 +301,9 @@ Proof.
     unfold t_id in Hfi; cbn [t_info] in Hfi. rewrite Hi, Hfw in Hfi. injection Hfi as Hw.
     apply Hcov1 in Hp. destruct Hp as [Hp _]. apply Hrcin in Hp. destruct Hp as [Hp _].
     unfold self in Hp. rewrite Hw in Hp. exact Hp. }
-  pose proof (scroll_region_spec id _ _ T T D Hkc Hu Hvn pth v1 Hpath Hinv1 Hvself) as Hreg.
+  pose proof (scroll_region_spec (rfuel:=(r_fuel st)) id _ _ T T D Hkc Hu Hvn pth v1 Hpath Hinv1 Hvself) as Hreg.
   rewrite Hchain.
-  destruct (scroll_region no_defects (rev (T :: pth)) v1 0 0) as [| |V a b];
+  destruct (scroll_region no_defects (r_fuel st) (rev (T :: pth)) v1 0 0) as [| |V a b];
     try (left; eexists; split; reflexivity).
   destruct Hreg as (_ & HinvV & _ & _ & HcovV).
   destruct (inv_disjoint V HinvV) as [_ HneV].
@@ -378,7 +378,7 @@ Qed.
 
 Definition ex_tree : wtree :=
   Node (new_info 0 (mkRect 0 0 4 6) false false) [Node (new_info 1 (mkRect 1 1 2 3) false false) []].
-Definition ex_st : root := mkRoot ex_tree [] [] [] false false false false false 0 (-1) (-1) None.
+Definition ex_st : root := mkRoot ex_tree [] [] [] false false false false false 0 (-1) (-1) None rsfuel.
 Definition ex_app : Z -> Z -> Z -> Z := fun id l c => 1000 + id * 100 + l * 10 + c.
 Definition ex_v : vt :=
   VT.set_grid (vt_run xt_start (vt_init 4 6))
